@@ -116,14 +116,23 @@ fn rng_script(rng: &mut Prng, kem: KemId) -> B {
 /// Keygen(2c), Keygen(2c+1), SetupS(c), SetupR(c)
 fn setup_pair(ev: &mut Vec<Ev>, rng: &mut Prng, c: usize, cfg: &Cfg, s_model: bool, r_model: bool) {
     let kem = cfg.suite.kem;
-    ev.push(Ev::Keygen { k: 2 * c, kem, ikm: ikm(rng) });
+    let nsk = kem.rfc_sizes().2;
+    let ikm_r = if rng.chance(1, 30) { b(rng.rand_bytes(nsk)) } else { ikm(rng) };
+    ev.push(Ev::Keygen { k: 2 * c, kem, ikm: ikm_r.clone() });
     let ks = if cfg.mode.has_auth() {
-        ev.push(Ev::Keygen { k: 2 * c + 1, kem, ikm: ikm(rng) });
-        Some(2 * c + 1)
+        if rng.chance(1, 15) {
+            // aliasing: a self-addressed authenticated session (sender identity = recipient key pair)
+            Some(2 * c)
+        } else {
+            ev.push(Ev::Keygen { k: 2 * c + 1, kem, ikm: ikm(rng) });
+            Some(2 * c + 1)
+        }
     } else {
         None
     };
-    ev.push(Ev::SetupS { c, cfg: cfg.clone(), kr: 2 * c, ks, ks_pub: None, rng: rng_script(rng, kem), model_only: s_model });
+    // aliasing: the ephemeral key pair equals the recipient's (RNG returns the recipient's ikm)
+    let script = if ikm_r.len() == nsk && rng.chance(1, 3) { ikm_r.clone() } else { rng_script(rng, kem) };
+    ev.push(Ev::SetupS { c, cfg: cfg.clone(), kr: 2 * c, ks, ks_pub: None, rng: script, model_only: s_model });
     ev.push(Ev::SetupR { c, cfg: cfg.clone(), kr: 2 * c, ks, enc: EncSrc::Of(c), model_only: r_model });
 }
 
@@ -152,8 +161,12 @@ pub fn gen_c01(rng: &mut Prng, run: u64, t: &Tier) -> Vec<Ev> {
             // one-message session through the single-shot forms
             ev.push(Ev::Keygen { k: 0, kem, ikm: ikm(rng) });
             let ks = if mode.has_auth() {
-                ev.push(Ev::Keygen { k: 1, kem, ikm: ikm(rng) });
-                Some(1)
+                if rng.chance(1, 12) {
+                    Some(0) // self-addressed: sender identity = recipient key pair
+                } else {
+                    ev.push(Ev::Keygen { k: 1, kem, ikm: ikm(rng) });
+                    Some(1)
+                }
             } else {
                 None
             };
@@ -166,8 +179,12 @@ pub fn gen_c01(rng: &mut Prng, run: u64, t: &Tier) -> Vec<Ev> {
         _ => {
             ev.push(Ev::Keygen { k: 0, kem, ikm: ikm(rng) });
             let ks = if mode.has_auth() {
-                ev.push(Ev::Keygen { k: 1, kem, ikm: ikm(rng) });
-                Some(1)
+                if rng.chance(1, 12) {
+                    Some(0) // self-addressed: sender identity = recipient key pair
+                } else {
+                    ev.push(Ev::Keygen { k: 1, kem, ikm: ikm(rng) });
+                    Some(1)
+                }
             } else {
                 None
             };
@@ -202,7 +219,7 @@ pub fn gen_c01(rng: &mut Prng, run: u64, t: &Tier) -> Vec<Ev> {
             }
             if rng.chance(1, 6) {
                 // long history: the counter crosses 2^8 (and 2^16 in the thorough tier)
-                let n = if t.thorough && rng.chance(1, 4) { 70_000 } else { 300 };
+                let n = if (t.thorough && rng.chance(1, 4)) || rng.chance(1, 40) { 70_000 } else { 300 };
                 ev.push(Ev::Pump { r: 0, from: 0, n, len: rng.range(0, 40), inplace_s: rng.chance(1, 2), inplace_r: rng.chance(1, 2) });
                 let (pt, aad) = msg(rng, false);
                 ev.push(Ev::Seal { c: 0, pt, aad, inplace: false });
@@ -400,7 +417,7 @@ pub fn gen_c04(rng: &mut Prng, run: u64, t: &Tier) -> Vec<Ev> {
         // hook-free stretch across carry boundaries (fresh context)
         let cfg2 = gen_cfg(rng, suite, ModeKind::Base, 16);
         setup_pair(&mut ev, rng, 1, &cfg2, false, false);
-        let n = if t.thorough && rng.chance(1, 3) { 70_000 } else { 600 };
+        let n = if (t.thorough && rng.chance(1, 3)) || rng.chance(1, 12) { 70_000 } else { 600 };
         ev.push(Ev::SealMany { c: 1, n, len: rng.range(0, 9), inplace: true });
     }
     ev
@@ -1234,6 +1251,11 @@ pub fn gen_c11(rng: &mut Prng, run: u64, _t: &Tier) -> Vec<Ev> {
             ev.push(Ev::Export { c, role: Role::S, ctx: ctx.clone(), len });
             ev.push(Ev::Export { c, role: Role::R, ctx, len });
         }
+    }
+    if rng.chance(1, 40) {
+        ev.push(Ev::ExportBurst { c: 0, role: if rng.chance(1, 2) { Role::S } else { Role::R }, n: 66_000, len: *rng.pick(&[1usize, 16, 32]) });
+        ev.push(Ev::Export { c: 0, role: Role::S, ctx: b(vec![1]), len: 32 });
+        ev.push(Ev::Export { c: 0, role: Role::R, ctx: b(vec![1]), len: 32 });
     }
     // drive a sealing session into exhaustion and export again
     if rng.chance(1, 4) {
